@@ -55,6 +55,19 @@ private def bufOps (ops : List String) : String :=
   let (_, outs) := ops.foldl step (some { used := 0, size := 0 }, [])
   String.intercalate " " outs
 
+private def gwOut (maxField : Nat) (reads : List Bytes) : String :=
+  let r := gwRun maxField reads
+  match r.fail with
+  | some f =>
+    if f.startsWith "ub:" then ubStr (f.drop 3).toString else
+    "rc=-1 n=" ++ toString r.n ++ " te=" ++ toString r.st.te ++ " h=" ++ toString r.st.h.length ++
+      " done=" ++ (if r.st.done then "1" else "0") ++ " out=" ++ toString r.st.out ++
+      " maxh=" ++ toString r.maxh ++ " maxp=" ++ toString r.maxp
+  | none =>
+    "rc=0 n=" ++ toString r.n ++ " te=" ++ toString r.st.te ++ " h=" ++ toString r.st.h.length ++
+      " done=" ++ (if r.st.done then "1" else "0") ++ " out=" ++ toString r.st.out ++
+      " maxh=" ++ toString r.maxh ++ " maxp=" ++ toString r.maxp
+
 private def h2cOut (fsize : Nat) (buf : Bytes) : String :=
   if buf.length < 9 || 9 + u24 buf 0 > buf.length then "bad-op" else
   let flen0 := u24 buf 0
@@ -101,6 +114,15 @@ def arithLine : List String → String
     match ofHex h with
     | some d => ckOut true (ck2 d)
     | none => "bad-op"
+  | ["gwd", mf, pre, unit, cnt, suf] =>
+    match mf.toNat?, ofHex pre, ofHex unit, cnt.toNat?, ofHex suf with
+    | some m, some p, some u, some c, some sfx =>
+      gwOut m (([p] ++ (if u.isEmpty then [] else List.replicate c u) ++ [sfx]).filter (!·.isEmpty))
+    | _, _, _, _, _ => "bad-op"
+  | "gws" :: mf :: segs =>
+    match mf.toNat?, segs.mapM ofHex with
+    | some m, some bs => if bs.isEmpty then "bad-op" else gwOut m bs
+    | _, _ => "bad-op"
   | ["hoff", i0, h] =>
     match i0.toNat?, ofHex h with
     | some i, some b => hoffOut i b
